@@ -105,8 +105,18 @@ impl Runtime {
     pub fn launch(self: &Arc<Self>, proc: &Arc<Process>) {
         debug!("scheduler::launch");
         let proc = proc.clone();
+        #[cfg(feature = "verif")]
+        if crate::verif::spawn_armed() {
+            let pid = proc.id().to_string();
+            crate::verif::park_job("launch", &pid, "", Box::new(move || proc.start()));
+            return;
+        }
+        #[cfg(feature = "verif")]
+        crate::verif::inflight_inc();
         tokio::spawn(async move {
             proc.start();
+            #[cfg(feature = "verif")]
+            crate::verif::inflight_dec();
         });
     }
 
@@ -315,10 +325,27 @@ impl Runtime {
 
         let action = Action::new(pid, tid, event, &vars);
         let scher = self.clone();
+        #[cfg(feature = "verif")]
+        if crate::verif::spawn_armed() {
+            crate::verif::park_job(
+                "return",
+                pid,
+                tid,
+                Box::new(move || {
+                    let ret = scher.do_action(&action);
+                    crate::verif::on_return(&action, &ret);
+                }),
+            );
+            return;
+        }
+        #[cfg(feature = "verif")]
+        crate::verif::inflight_inc();
         tokio::spawn(async move {
             let _ = scher
                 .do_action(&action)
                 .map_err(|err| error!("scher::return_to_act {}", err.to_string()));
+            #[cfg(feature = "verif")]
+            crate::verif::inflight_dec();
         });
     }
 }
